@@ -73,7 +73,15 @@ func (vDead) Wait4(int, *syscall.WaitStatus, int, *syscall.Rusage) (int, error) 
 	return -1, syscall.ECHILD
 }
 
-func vsimStart(r *forkexec.Runner) (int, error) {
+// vsimStart takes the address of whatever the code calls Start on (a Runner value or a pointer to one).
+func vsimStart[T forkexec.Runner | *forkexec.Runner](x *T) (int, error) {
+	var r *forkexec.Runner
+	switch v := any(x).(type) {
+	case *forkexec.Runner:
+		r = v
+	case **forkexec.Runner:
+		r = *v
+	}
 	if p, _ := vget(); p != nil {
 		return p.Start(r)
 	}
